@@ -2,7 +2,7 @@ from common import KERNEL, CORR
 
 PROP = dict(
     level="proof",
-    generators=["C08"],
+    generators=["C08", "C17Pack"],   # the message packer's own chunking of lal's signalling messages too
     trusted_base=[
         KERNEL, CORR,
         "Spec/ChunkSpec.lean is the reading of RTMP 1.0 §5.3.1/§5.4.1/aggregate messages used as 'specification-conforming reader'; "
